@@ -12,6 +12,7 @@
   of the code).
 -/
 import GFO.Gen.CoreGen
+import GFO.Proofs.Local
 namespace GFO.Gen.Core
 open GFO
 
@@ -122,5 +123,103 @@ theorem random_iteration_ok (cfg : LocalCfg) (tape : Tape) (k : Tape → Except 
     cases x
     case unif u => simp
     all_goals simp
+
+/-! ### C08: every round of the translated loops makes progress on the tape, and returns exactly on a positive verdict -/
+
+theorem takeRnd_len {tape rest : Tape} {p : Pos} (h : takeRnd tape = .ok (p, rest)) : rest.length + 1 = tape.length := by
+  unfold takeRnd at h
+  split at h
+  · simp only [Except.ok.injEq, Prod.mk.injEq] at h; obtain ⟨_, rfl⟩ := h; simp
+  · simp at h
+  · simp at h
+
+theorem askFeas_len {tape rest : Tape} {p : Pos} {ok : Bool} (h : askFeas p tape = .ok (ok, rest)) :
+    rest.length + 1 = tape.length ∧ tape = Draw.feas p ok :: rest := by
+  unfold askFeas at h
+  split at h
+  · rename_i q ok' rest'
+    split at h
+    · simp at h
+    · rename_i hq
+      simp only [Except.ok.injEq, Prod.mk.injEq] at h
+      obtain ⟨rfl, rfl⟩ := h
+      have : q = p := by simpa using hq
+      subst this
+      exact ⟨by simp, rfl⟩
+  · simp at h
+  · simp at h
+
+/-- `move_random`: a round that does not return has consumed a generator draw and a NEGATIVE verdict; one that returns, a positive one -/
+theorem move_random_round_progress {tape : Tape} :
+    (∀ t', move_random_round tape = .ok (.inr t') → t'.length + 2 = tape.length ∧ ∃ p, tape = Draw.rnd p :: Draw.feas p false :: t') ∧
+    (∀ p t', move_random_round tape = .ok (.inl (p, t')) → tape = Draw.rnd p :: Draw.feas p true :: t') := by
+  unfold move_random_round
+  cases h1 : takeRnd tape with
+  | error e => simp
+  | ok a =>
+    obtain ⟨pos, t1⟩ := a
+    have hr : tape = Draw.rnd pos :: t1 := by
+      unfold takeRnd at h1
+      split at h1
+      · simp only [Except.ok.injEq, Prod.mk.injEq] at h1; obtain ⟨rfl, rfl⟩ := h1; rfl
+      · simp at h1
+      · simp at h1
+    simp only
+    cases h2 : askFeas pos t1 with
+    | error e => simp
+    | ok b =>
+      obtain ⟨ok, t2⟩ := b
+      obtain ⟨hl, ht⟩ := askFeas_len h2
+      cases ok
+      · simp only [Bool.false_eq_true, if_false, Except.ok.injEq, Sum.inr.injEq, reduceCtorEq, false_implies, implies_true, and_true]
+        intro t' ht'
+        subst ht'
+        exact ⟨by rw [hr]; simp; omega, pos, by rw [hr, ht]⟩
+      · simp only [if_true, Except.ok.injEq, reduceCtorEq, false_implies, implies_true, Sum.inl.injEq, Prod.mk.injEq, true_and]
+        rintro p t' ⟨rfl, rfl⟩
+        rw [hr, ht]
+
+/-- `move_climb`: a round that does not return has consumed at least a generator draw and a verdict -/
+theorem move_climb_round_progress {g : Geo} {pos loc' : Pos} {tape t' : Tape}
+    (h : move_climb_round g pos tape = .ok (.inr (loc', t'))) : t'.length + 2 ≤ tape.length := by
+  unfold move_climb_round at h
+  cases h1 : takeDist pos tape with
+  | error e => rw [h1] at h; simp at h
+  | ok a =>
+    obtain ⟨v, t1⟩ := a
+    rw [h1] at h
+    simp only at h
+    have hl1 : t1.length + 1 = tape.length := by
+      unfold takeDist at h1
+      split at h1
+      · split at h1
+        · simp at h1
+        · simp only [Except.ok.injEq, Prod.mk.injEq] at h1; obtain ⟨_, rfl⟩ := h1; simp
+      · simp at h1
+      · simp at h1
+    cases h2 : conv2pos g v t1 with
+    | error e => rw [h2] at h; simp at h
+    | ok b =>
+      obtain ⟨p, t2⟩ := b
+      rw [h2] at h
+      simp only at h
+      have hl2 : t2.length ≤ t1.length := by
+        rw [conv2pos_eq] at h2
+        unfold conv2posT at h2
+        simp only at h2
+        split at h2
+        · exact (moveRandomLoop_spec h2).1.length_le
+        · simp only [Except.ok.injEq, Prod.mk.injEq] at h2; obtain ⟨_, rfl⟩ := h2; exact Nat.le_refl _
+      cases h3 : askFeas p t2 with
+      | error e => rw [h3] at h; simp at h
+      | ok c =>
+        obtain ⟨ok, t3⟩ := c
+        rw [h3] at h
+        obtain ⟨hl3, _⟩ := askFeas_len h3
+        cases ok
+        · simp only [Bool.false_eq_true, if_false, Except.ok.injEq, Sum.inr.injEq, Prod.mk.injEq] at h
+          obtain ⟨_, rfl⟩ := h
+          omega
+        · simp at h
 
 end GFO.Gen.Core
